@@ -572,7 +572,7 @@ static unsigned m_open_quirks(void)
 {
 	unsigned S = 0;
 	int q;
-	for (q = 0; q < Q_COUNT; q++) if (m_quirk_open[q] != QK_REPAIRED) S |= QBIT(q);
+	for (q = 0; q < Q_COUNT; q++) if (m_qstatus(q) != QK_REPAIRED) S |= QBIT(q);
 	return S;
 }
 
@@ -617,7 +617,7 @@ static unsigned judge(void)
 	if (!strict.any) return 0;
 	/* behaviour the standard leaves to the decoder (QK_OPTION): either setting is the strict model */
 	OPT = 0;
-	for (q = 0; q < Q_COUNT; q++) if (m_quirk_open[q] == QK_OPTION) OPT |= QBIT(q);
+	for (q = 0; q < Q_COUNT; q++) if (m_qstatus(q) == QK_OPTION) OPT |= QBIT(q);
 	if (OPT && !evaluate(OPT, &t)) { vf_count("cases_agreeing_with_strict_model_optional_features_off", 1); return 0; }
 	vf_count("cases_diverging_from_strict", 1);
 
@@ -677,7 +677,7 @@ static unsigned judge(void)
 				char key[80];
 				snprintf(key, sizeof key, "model:C08:%s%s", sut_cc608 ? "cc608:" : "", m_quirk_name[q]);
 				vf_fail(key, "divergence from the strict model disappears exactly with {%s}%s. Strict: %s | %s", set,
-					m_quirk_open[q] == QK_OPEN ? "" : " (this quirk is repaired by a proposed fix: regression or unpatched tree)", witness_detail(&strict, B), case_desc);
+					m_qstatus(q) == QK_OPEN ? "" : " (this quirk is repaired by a proposed fix: regression or unpatched tree)", witness_detail(&strict, B), case_desc);
 				vf_count(m_quirk_name[q], 1);
 			}
 		dump_pages_verbose(B, &strict);
@@ -1487,6 +1487,158 @@ static int run_generated(struct vf_rng *r)
 	return nonempty_compared;
 }
 
+
+/* ------------------------------------------------------------------ */
+/* mode "cc608local": local postconditions on the second implementation (src/cc608_decoder.c)        */
+/*                                                                                                      */
+/* The full differential oracle needs a quirk model per implementation (the strict reference model    */
+/* and cc608_decoder.c disagree on about half of the generated histories, first of all because a      */
+/* colour PAC keeps the cursor column there).  What can be decided without one: after an arbitrary    */
+/* generated history (any decoder state), a short suffix that itself fixes mode, memory and cursor    */
+/* - RDC (paint-on: what is written is displayed at once), EDM, an INDENT PAC (row and column        */
+/* explicit) - must leave exactly what 47 CFR 15.119 says in the addressed row:                        */
+/*   put  PAC r,i 'text'            columns i+1.. hold the text, white, underline as in the PAC        */
+/*   der  PAC r,0 'full row' PAC r,i DER    (f)(1)(vii): cursor column and all to its right erased     */
+/*   bs   PAC r,i 'text' BS xk      (f)(1)(vi): one column left, erasing the character there           */
+/*   to   PAC r,i TOk 'text'        (e)(1)(ii): k columns further right, nothing erased                */
+/*   edm  'text' EDM                (f)(1)(viii)... displayed memory erased                            */
+/*   eoc  RCL ENM PAC r,i 'text' EOC   pop-on: text appears with EOC, not before                       */
+/* Cells outside the addressed row must be transparent (the suffix erased the displayed memory).      */
+
+static int loc_fail(const char *what, int p, int row, const struct dcell pgc[M_ROWS][M_COLS], const char *expect, int f)
+{
+	char dec[40], key[64];
+	dump_dec_row(pgc[row], dec);
+	snprintf(key, sizeof key, "model:C08:cc608:local:%s", what);
+	vf_fail(key, "page %d row %d: expected [%s], cc608_decoder shows [%s] (' ' transparent, '_' space, '#' other) | field %d: ...%s | %s",
+		p + 1, row + 1, expect, dec, f + 1, dis_range(f, n_frames > 60 ? n_frames - 60 : 0, n_frames - 1, 900), case_desc);
+	return 1;
+}
+
+static int run_cc608_local(struct vf_rng *r)
+{
+	struct gen g[2];
+	static const char alnum[] = "ABCDEFGHIJKLMNOPQRSTUVWXYZabcdefghijklmnopqrstuvwxyz0123456789";
+	static const char *const kinds[] = { "put", "der", "bs", "to", "edm", "eoc" };
+	char exp[M_COLS + 1], text[40];
+	int f, ch2, p, row, ind, ul, n, k, kind, i, c, plen, nbs = 0, tok = 0, der_col = 0;
+	struct snap *s;
+
+	sut_cc608 = m_sut_cc608 = 1;
+	q_reset();
+	gen_init(&g[0], r, 0); gen_init(&g[1], r, 1);
+	plen = vf_chance(r, 1, 8) ? 0 : vf_range(r, 4, 200);
+	for (f = 0; f < 2; f++) {
+		if (!plen || vf_chance(r, 1, 3)) continue;
+		g_run_profile(&g[f], pick_profile(r), plen);
+	}
+	/* the suffix */
+	f = (int)vf_below(r, 2); ch2 = (int)vf_below(r, 2); p = f * 2 + ch2;
+	row = vf_range(r, 1, 15); ind = (int)vf_below(r, 8) * 4; ul = (int)vf_below(r, 2);
+	kind = (int)vf_below(r, 6);
+	q_flush_pend(0); q_flush_pend(1);
+	while (qn[f] < qn[1 - f]) q_push(f, 0, 0, 0);       /* the suffix comes after everything on the other field, too */
+	q_null(f, 1);
+#define CTL(pair) q_ctrl(f, (pair), 2)
+	memset(exp, ' ', M_COLS); exp[M_COLS] = 0;
+	n = vf_range(r, 1, 32 - ind);
+	if (vf_chance(r, 1, 4)) n = 32 - ind;                /* up to the last column */
+	for (i = 0; i < n; i++) text[i] = alnum[vf_below(r, sizeof alnum - 1)];
+	text[n] = 0;
+	if (kind == 5) { CTL(e608_misc(ch2, f, E608_RCL)); CTL(e608_misc(ch2, f, E608_ENM)); }
+	else CTL(e608_misc(ch2, f, E608_RDC));
+	CTL(e608_misc(ch2, f, E608_EDM));
+	switch (kind) {
+	case 0: /* put */
+		CTL(e608_pac(ch2, row, ind, 0, ul));
+		for (i = 0; i < n; i++) q_char(f, text[i]);
+		for (i = 0; i < n; i++) exp[1 + ind + i] = text[i];
+		break;
+	case 1: /* der: a full row, then DER at column ind+1 */
+		CTL(e608_pac(ch2, row, 0, 0, ul));
+		for (i = 0; i < 32; i++) { c = alnum[vf_below(r, sizeof alnum - 1)]; q_char(f, c); if (i < ind) exp[1 + i] = (char)c; }
+		CTL(e608_pac(ch2, row, ind, 0, ul));
+		CTL(e608_misc(ch2, f, E608_DER));
+		der_col = 1 + ind;
+		break;
+	case 2: /* bs */
+		CTL(e608_pac(ch2, row, ind, 0, ul));
+		for (i = 0; i < n; i++) q_char(f, text[i]);
+		nbs = vf_range(r, 1, n < 3 ? n : 3);
+		/* a cursor that went past column 32 stays in column 32: the first BS then moves to column 31 (f)(1)(vi) and erases it */
+		for (i = 0; i < nbs; i++) CTL(e608_misc(ch2, f, E608_BS));
+		k = n;
+		if (ind + n == 32) { k = n - 1 - nbs; if (k < 0) k = 0; for (i = 0; i < k; i++) exp[1 + ind + i] = text[i]; exp[32] = text[n - 1]; }
+		else { k = n - nbs; if (k < 0) k = 0; for (i = 0; i < k; i++) exp[1 + ind + i] = text[i]; }
+		break;
+	case 3: /* to */
+		tok = vf_range(r, 1, 3);
+		if (ind + tok + n > 32) n = 32 - ind - tok;
+		if (n < 1) { n = 1; ind = 0; }
+		CTL(e608_pac(ch2, row, ind, 0, ul));
+		CTL(e608_to(ch2, tok));
+		for (i = 0; i < n; i++) q_char(f, text[i]);
+		for (i = 0; i < n; i++) exp[1 + ind + tok + i] = text[i];
+		break;
+	case 4: /* edm */
+		CTL(e608_pac(ch2, row, ind, 0, ul));
+		for (i = 0; i < n; i++) q_char(f, text[i]);
+		CTL(e608_misc(ch2, f, E608_EDM));
+		break;
+	default: /* eoc */
+		CTL(e608_pac(ch2, row, ind, 0, ul));
+		for (i = 0; i < n; i++) q_char(f, text[i]);
+		q_check(f);                                     /* before EOC: nothing visible */
+		CTL(e608_misc(ch2, f, E608_EOC));
+		for (i = 0; i < n; i++) exp[1 + ind + i] = text[i];
+		break;
+	}
+	q_check(f);
+	frames_zip();
+	snprintf(case_desc, sizeof case_desc, "local %s: field %d channel %d row %d indent %d underline %d text '%s' bs %d to %d, prefix %d pairs",
+		 kinds[kind], f + 1, ch2 + 1, row, ind, ul, text, nbs, tok, plen);
+	vf_sample("%s", case_desc);
+	run_decoder();
+	vf_count("local_cases", 1);
+	{ char cn[40]; snprintf(cn, sizeof cn, "local_%s", kinds[kind]); vf_count(cn, 1); }
+	if (n_snaps < 1) { vf_fail("harness:C08:local:no-checkpoint", "no checkpoint recorded"); return 0; }
+	vf_sig("local %s f%d ch%d ind%d n%s ul%d prefix%s", kinds[kind], f, ch2, ind, ind + n == 32 ? "=32" : n == 1 ? "1" : "k", ul, plen ? (plen > 60 ? "long" : "short") : "0");
+	if (kind == 5 && n_snaps >= 2) {
+		/* the checkpoint before EOC */
+		s = &snaps[n_snaps - 2];
+		if (s->fetch_ok[p] == 1)
+			for (c = 0; c < M_COLS; c++)
+				if (s->pg[p][row - 1][c].op != VBI_TRANSPARENT_SPACE) {
+					char e2[M_COLS + 1]; memset(e2, ' ', M_COLS); e2[M_COLS] = 0;
+					return loc_fail("pop-on-visible-before-EOC", p, row - 1, s->pg[p], e2, f);
+				}
+	}
+	s = &snaps[n_snaps - 1];
+	if (s->fetch_ok[p] != 1) { vf_fail("model:C08:cc608:local:fetch-failed", "_vbi_cc608_decoder_get_page(%d) returned %d | %s", p + 1, s->fetch_ok[p], case_desc); return 1; }
+	{
+		int rr;
+		for (rr = 0; rr < M_ROWS; rr++) {
+			for (c = 0; c < M_COLS; c++) {
+				const struct dcell *d = &s->pg[p][rr][c];
+				int want = rr == row - 1 ? exp[c] : ' ';
+				if (want != ' ') {
+					if (d->op == VBI_TRANSPARENT_SPACE || d->uc != (unsigned)want) return loc_fail(kind == 2 ? "backspace" : kind == 3 ? "tab-offset" : "text-at-cursor", p, rr, s->pg[p], exp, f);
+					if (d->fg != VBI_WHITE || !!(d->fl & DF_UL) != ul || (d->fl & (DF_IT | DF_FL | DF_OTHER)))
+						return loc_fail("attributes-of-indent-PAC", p, rr, s->pg[p], exp, f);
+					continue;
+				}
+				if (d->op == VBI_TRANSPARENT_SPACE) { if (d->uc != 0x20) return loc_fail("transparent-cell-not-blank", p, rr, s->pg[p], exp, f); continue; }
+				/* (d)(1): a solid space may stand before the first and after the last character of a row */
+				if (rr == row - 1 && d->uc == 0x20 && ((c > 0 && exp[c - 1] != ' ') || (c < M_COLS - 1 && exp[c + 1] != ' '))) continue;
+				if (rr != row - 1) return loc_fail("other-row-not-erased", p, rr, s->pg[p], "                                  ", f);
+				return loc_fail(kind == 1 ? (c >= der_col ? "DER-left-cell" : "DER-changed-left-part") : kind == 4 ? "EDM-left-cell" : kind == 2 ? "backspace" : "spurious-cell", p, rr, s->pg[p], exp, f);
+			}
+		}
+	}
+	cells_compared += M_ROWS * M_COLS;
+	return 1;
+}
+
 /* ------------------------------------------------------------------ */
 /* quirk witnesses: one minimal command sequence per named quirk (mode "witness")               */
 
@@ -1559,7 +1711,7 @@ static int run_witness(long idx)
 	S = judge();
 	vf_count("witness_sequences", 1);
 	if (S == 0) { vf_count("witness_no_longer_diverging", 1); return 1; }     /* repaired in the tree under test */
-	if (S == QBIT(witness[w].q)) vf_count(m_quirk_open[witness[w].q] == QK_OPEN ? "witness_open_quirk_confirmed" : "witness_repaired_quirk_present", 1);
+	if (S == QBIT(witness[w].q)) vf_count(m_qstatus(witness[w].q) == QK_OPEN ? "witness_open_quirk_confirmed" : "witness_repaired_quirk_present", 1);
 	if (S != QBIT(witness[w].q)) {
 		char key[96];
 		snprintf(key, sizeof key, "selfcheck:C08:witness:%s", m_quirk_name[witness[w].q]);
@@ -1604,7 +1756,9 @@ static int run_case(struct vf_rng *r, long idx)
 	pages_compared = pages_skipped_unflushed = pages_skipped_poisoned = 0;
 	cells_compared = 0;
 	sut_cc608 = !strcmp(vf_mode, "cc608") || (getenv("C08_SUT") && !strcmp(getenv("C08_SUT"), "cc608"));
-	if (!strcmp(vf_mode, "witness")) nt = run_witness(idx);
+	m_sut_cc608 = sut_cc608;
+	if (!strcmp(vf_mode, "cc608local")) nt = run_cc608_local(r);
+	else if (!strcmp(vf_mode, "witness")) nt = run_witness(idx);
 	else if (!strcmp(vf_mode, "script")) nt = run_script();
 	else nt = run_generated(r);
 	vf_count("pages_compared", pages_compared);
